@@ -720,12 +720,12 @@ func (w *watcher) drain() []fsEvent {
 
 // tail is what one run did to the two final names.
 type tail struct {
-	Attempted  bool     `json:"attempted"`  // a temp file of either store was created
-	Replaced   []string `json:"replaced"`   // final names in the order they were renamed into place
-	NotAtomic  []string `json:"notAtomic"`  // final names created/modified in place
-	TombFirst  bool     `json:"tombFirst"`  // tombstones were replaced before the state file (when both were)
-	TombLanded bool     `json:"tombLanded"`
-	StateLanded bool    `json:"stateLanded"`
+	Attempted   bool     `json:"attempted"` // a temp file of either store was created
+	Replaced    []string `json:"replaced"`  // final names in the order they were renamed into place
+	NotAtomic   []string `json:"notAtomic"` // final names created/modified in place
+	TombFirst   bool     `json:"tombFirst"` // tombstones were replaced before the state file (when both were)
+	TombLanded  bool     `json:"tombLanded"`
+	StateLanded bool     `json:"stateLanded"`
 }
 
 func analyseTail(evs []fsEvent) tail {
